@@ -15,10 +15,10 @@ from ..monitors import Monitor, first_n_then_every
 RELATIONS = ["oplus-vs-reference", "matrix-homomorphism", "ominus-vs-reference", "ominus-is-inverse-oplus", "inverse-two-sided", "identity-two-sided", "associativity",
              "pose-oplus-point", "boxplus-is-oplus-of-compact", "to_matrix-vs-reference", "from_matrix-roundtrip", "iadd-rebinds", "copy-independent", "accessors-consistent"]
 RULE = ("cases from rng(seed, 9, 0, i): pose kind = i mod 4; operands a,b,c, a point and an increment from hostile classes (translations to 1e4/1e6, angles at +-pi, shifted "
-        "by 2 pi k, huge; quaternions w<0, w=0, 180 deg, near identity); 14 relations evaluated per case; every 16th case is an in-situ optimizer run with sampled operator "
+        "by 2 pi k, huge; quaternions w<0, w=0, 180 deg, near identity; increments incl. rotational norm exactly 1); 14 relations evaluated per case, and again after the operand objects were modified in place (every 3rd case); every 16th case is an in-situ optimizer run with sampled operator "
         "observations. distinct = fingerprint of the operands; non-trivial = a and b both have non-zero translation and (SE types) non-identity rotation.")
 REQ = ["eval:" + r for r in RELATIONS if r != "from_matrix-roundtrip"] + ["eval:from_matrix-roundtrip", "class:kind:se3", "class:kind:se2", "class:q:wneg", "class:q:wzero", "class:a:nearpi_in",
-                                                                     "insitu_operator_calls_observed"]
+                                                                     "insitu_operator_calls_observed", "class:operands_modified_in_place", "class:increment_rotation_norm_exactly_1"]
 PLAN = {
     "quick": {"cases": 8000, "soft_s": 60, "min_nontrivial": 2000, "require": REQ},
     "thorough": {"cases": 600000, "soft_s": 1200, "min_nontrivial": 100000, "require": REQ},
@@ -60,14 +60,45 @@ def direct_case(ctx, i, rng):
         labels |= l
         ops.append(p)
     A, B, C = [M.mkpose(k, p) for p in ops]
-    a, b, c = M.fl(A), M.fl(B), M.fl(C)  # live numeric content (SE(2) angles wrapped by the constructor)
-    ta, tb, tc = R.tmag(k, a), R.tmag(k, b), R.tmag(k, c)
-    feats = {"kind": k}
-    case = {"kind": k, "a": a, "b": b, "c": c}
-    cls = M.CLS[k]
     ctx.count("class:kind:" + k)
     for lab in labels:
         ctx.count("class:" + lab)
+    case, nontriv = relations(ctx, k, A, B, C, rng, maxexp, {"kind": k})
+    if i % 3 == 0:
+        # history: the same pose objects, modified in place, must behave like fresh poses with the new values
+        for X in (A, B):
+            new, _ = gen.pose(rng, k, maxexp)
+            X[:] = M.fl(M.mkpose(k, new))
+        ctx.count("class:operands_modified_in_place")
+        relations(ctx, k, A, B, C, rng, maxexp, {"kind": k, "after_inplace_modification": True})
+    if nontriv:
+        ctx.nontrivial(gen.fingerprint(case))
+    ctx.sample(case, cap=2)
+
+
+def unit_increment(rng):
+    """A rotational increment whose norm, as numpy computes it, is exactly 1.0 (the boundary of the stated domain: a half turn)."""
+    if rng.random() < 0.4:
+        v = np.zeros(3)
+        v[rng.integers(3)] = rng.choice([-1.0, 1.0])
+        return v
+    for _ in range(50):
+        v = rng.normal(size=3)
+        v /= np.linalg.norm(v)
+        if np.linalg.norm(v) == 1.0 and float(v @ v) <= 1.0:
+            return v
+    v = np.zeros(3)
+    v[0] = 1.0
+    return v
+
+
+def relations(ctx, k, A, B, C, rng, maxexp, feats):
+    a, b, c = M.fl(A), M.fl(B), M.fl(C)  # live numeric content (SE(2) angles wrapped by the constructor)
+    ta, tb, tc = R.tmag(k, a), R.tmag(k, b), R.tmag(k, c)
+    case = {"kind": k, "a": a, "b": b, "c": c}
+    if feats.get("after_inplace_modification"):
+        case["after_inplace_modification"] = True
+    cls = M.CLS[k]
     with np.errstate(all="ignore"):
         # 1 oplus
         AB = A + B
@@ -113,16 +144,25 @@ def direct_case(ctx, i, rng):
         if k == "se3":
             v = rng.normal(size=3)
             v *= float(rng.choice([1e-9, 1e-3, 0.1, 0.5, 0.9, 1.0 - 1e-12])) * rng.random() / np.linalg.norm(v)
+            if rng.random() < 0.15:
+                v = unit_increment(rng)
+                ctx.count("class:increment_rotation_norm_exactly_1")
             d = d + [float(x) for x in v]
         if k == "se2":
             d[2] = float(np.clip(d[2], -1e3, 1e3))
         dv = np.array(d, dtype=float)
+        bx_rot_scale = 1 + abs(d[2]) if k == "se2" else 1.0
+        if k == "se3":
+            # w = sqrt(1 - |v|^2) is ill-conditioned at |v| -> 1: a rounding error of a few eps in |v|^2 moves w by up to ~2 eps / w (at most ~sqrt(eps))
+            w_ref = math.sqrt(max(0.0, 1.0 - float(np.dot(dv[3:], dv[3:]))))
+            dw = min(4 * R.EPS / max(w_ref, 1e-300), 4 * math.sqrt(R.EPS))
+            bx_rot_scale = 1.0 + dw / (64 * R.EPS)
         BX = A + dv
         ctx.check("result-type", type(BX) is cls, dict(feats, op="boxplus"), {"type": type(BX).__name__}, case)
-        pose_close(ctx, "boxplus-is-oplus-of-compact", k, BX, R.box(k, a, d), 1 + ta + R.tmag(k, d), feats, dict(case, delta=d), rot_scale=(1 + abs(d[2]) if k == "se2" else 1.0))
+        pose_close(ctx, "boxplus-is-oplus-of-compact", k, BX, R.box(k, a, d), 1 + ta + R.tmag(k, d), feats, dict(case, delta=d), rot_scale=bx_rot_scale)
         # the same through the real composition with the real pose built from the compact form
         Dp = M.mkpose(k, R.vals(R.from_compact(k, d)))
-        pose_close(ctx, "boxplus-is-oplus-of-compact", k, BX, M.fl(A + Dp), 1 + ta + R.tmag(k, d), dict(feats, route="real-oplus"), dict(case, delta=d), rot_scale=(1 + abs(d[2]) if k == "se2" else 1.0))
+        pose_close(ctx, "boxplus-is-oplus-of-compact", k, BX, M.fl(A + Dp), 1 + ta + R.tmag(k, d), dict(feats, route="real-oplus"), dict(case, delta=d), rot_scale=bx_rot_scale)
         # 10 to_matrix
         if hasattr(A, "to_matrix"):
             ctx.close("to_matrix-vs-reference", A.to_matrix(), np.array(R.matrix(k, a)), 64 * R.EPS * (1 + ta), feats, None, case)
@@ -159,9 +199,7 @@ def direct_case(ctx, i, rng):
         nontriv = nontriv and abs(a[2]) > 1e-12 and abs(b[2]) > 1e-12
     if k == "se3":
         nontriv = nontriv and abs(abs(a[6]) - 1) > 1e-12 and abs(abs(b[6]) - 1) > 1e-12
-    if nontriv:
-        ctx.nontrivial(gen.fingerprint(case))
-    ctx.sample(case, cap=2)
+    return case, nontriv
 
 
 def insitu_case(ctx, i, rng):
